@@ -223,7 +223,7 @@ int32_t utcp_send_bunch(struct utcp_connection* fd, struct utcp_bunch* bunch)
 		return packet_id;
 	}
 
-	utcp_log(Warning, "[%s]send bunch failed:%d", packet_id);
+	utcp_log(Warning, "[%s]send bunch failed:%d", fd->debug_name, packet_id);
 	return PACKET_ID_INDEX_NONE;
 }
 
